@@ -262,7 +262,7 @@ class C29(dst.Check):
     real_vs_stub = {'SMPI collectives, selectors, NBC, datatypes, ops': 'real', 'SimGrid kernel + network model': 'real',
                     'MPI application': 'real (generated plan interpreter sim/mpicoll.c)',
                     'reference results': 'lib/refmpi_coll.py sequential definitions'}
-    budgets = {'quick': dict(runs=3000, wall=60), 'thorough': dict(runs=40000, wall=840)}
+    budgets = {'quick': dict(runs=3000, wall=40), 'thorough': dict(runs=40000, wall=780)}
     max_reported = 2000
     shrink_budget = 30
     workers = 16
@@ -315,7 +315,10 @@ class C29(dst.Check):
             # older large one of the same (source, tag) - a point-to-point ordering defect (C28) that would show up here
             # as random failures of every algorithm issuing back-to-back messages of different sizes
             kn.choice([0, 16, 1024, 65536, 1000000])
-            cfg['smpi/send-is-detached-thresh'] = kn.choice([0, 16, 1024, 65536, 1000000])
+            # values below the default (65536) make medium messages synchronous: several algorithms that rely on eager
+            # buffering then deadlock (known findings replayed from /verif/known/C29-syncsend-*.json); the generator stays
+            # away from that trigger so that it does not drown other failures
+            cfg['smpi/send-is-detached-thresh'] = kn.choice([65536, 65536, 1000000, 1000000, 1000000])
         if kn.chance(0.08):
             cfg['smpi/barrier-collectives'] = 'yes'
         ncalls = r.randint(5, 30 if tier == 'thorough' else 14)
